@@ -161,9 +161,9 @@ func vNondetSmallAnnotation() *fileAnnotation {
 	var fi FileInfo
 	switch verifNondetChoice(3) {
 	case 1:
-		fi = &vFileInfo{path: "a.proto", ext: "a.proto"}
+		fi = &vFileInfo{path: "in/a.proto", ext: "a.proto"}
 	case 2:
-		fi = &vFileInfo{path: "b,b.proto", ext: "b,b.proto"}
+		fi = &vFileInfo{path: "in/b,b.proto", ext: "b,b.proto"}
 	}
 	line := 1
 	if verifNondetBool() {
@@ -259,4 +259,28 @@ func VerifLemma_C20B_GithubWellFormed() {
 			verifAssert(ok, "a percent sign only occurs as part of an escape")
 		}
 	}
+}
+
+// VerifLemma_C20B_ExternalStruct: newExternalFileAnnotation - the struct the json printer (and, through String(), the
+// junit failure text) is built from - carries exactly the tuple the text format prints: the EXTERNAL path (not the
+// module-internal Path(), which the stub makes different), atLeast1 of the four positions, type, message, plugin.
+// The encoding of that struct (encoding/json) is outside the claim.
+func VerifLemma_C20B_ExternalStruct() {
+	hi := verifParam("MAXPOS")
+	fi := vNondetFileInfo(verifParam("PATH"))
+	a := newFileAnnotation(fi, verifNondetInt(-1, hi), verifNondetInt(-1, hi), verifNondetInt(-1, hi), verifNondetInt(-1, hi),
+		verifNondetString(verifParam("TYPE")), verifNondetString(verifParam("MSG")), verifNondetString(verifParam("PLUGIN")))
+	e := newExternalFileAnnotation(a)
+	verifCover("converted")
+	if fi == nil {
+		verifAssert(e.Path == "", "no file: empty path (omitted from the json)")
+	} else {
+		verifCover("with file")
+		verifAssert(fi.Path() != fi.ExternalPath(), "stub: internal and external path differ")
+		verifAssert(e.Path == fi.ExternalPath(), "json path is the external path, as in every other format")
+		verifAssert(e.Path == vRefPath(a), "json path is the path the text format prints")
+	}
+	verifAssert(e.StartLine == vRefAtLeast1(a.startLine) && e.StartColumn == vRefAtLeast1(a.startColumn), "json start position = the one text prints")
+	verifAssert(e.EndLine == vRefAtLeast1(a.endLine) && e.EndColumn == vRefAtLeast1(a.endColumn), "json end position, at least 1")
+	verifAssert(e.Type == a.typeString && e.Message == a.message && e.Plugin == a.pluginName, "json type, message and plugin verbatim")
 }
